@@ -109,7 +109,9 @@ def atoms():
         a.append(jv("float", fbits(x)))
     for s in ["", "|", "a", "b", "ab", "__DDS_NONE__", "__none__", "ABCD", "\x00\x00\x00\x01", "a|b", "é", "1", "0",
               "\x40\x00\x00\x00\x00\x00\x00\x00", "__DDS_INT__2147483648",
-              "ca978112ca1bbdcafac231b39a23dc4da786eff8147c4e72b9807785afee48bb"]:
+              "ca978112ca1bbdcafac231b39a23dc4da786eff8147c4e72b9807785afee48bb",
+              # strings that spell other atoms (str / repr of numbers, None, booleans, containers)
+              "None", "True", "False", "-1", "2147483648", "0.0", "-0.0", "nan", "[]", "()", "{}", "['a']", "('a',)", "{'k': 1}"]:
         a.append(jv("str", s))
     for idx, t in enumerate(TEMPORALS):
         a.append(jv("temporal", repr(t), idx=idx))
@@ -122,7 +124,9 @@ def atoms():
 
 
 def key_atoms():
-    return [jv("str", "k"), jv("str", ""), jv("int", "1"), jv("str", "a"), jv("none"), jv("tuple", [jv("int", "1")])]
+    """dict keys: strings, non-strings, and the strings that *spell* the non-string keys (str / repr)"""
+    return [jv("str", "k"), jv("str", ""), jv("int", "1"), jv("str", "a"), jv("none"), jv("tuple", [jv("int", "1")]),
+            jv("str", "1"), jv("str", "None"), jv("str", "(1,)"), jv("bool", True), jv("str", "True"), jv("float", fbits(1.0)), jv("str", "1.0")]
 
 
 def containers(elems, keys, full):
